@@ -13,7 +13,7 @@ bond-length settings and node relabellings.
 import copy
 import math
 
-from .core import H, rng_for, sha, jdump, HarnessError
+from .core import H, rng_for, sha, jdump, HarnessError, raised_in_harness
 from . import gen_mol
 
 EZ_STRINGS = [
@@ -304,6 +304,8 @@ def run_history(scenario):
         except HarnessError:
             raise
         except Exception as exc:  # noqa
+            if raised_in_harness(exc):
+                raise HarnessError("harness bug in op %s: %s: %s" % (op["op"], type(exc).__name__, exc))
             event["out"] = "exc:%s: %s" % (type(exc).__name__, str(exc)[:100])
             if op["op"] != "foreign_rng":
                 violations.append({"oracle": "C19.positions", "event": seq,
